@@ -275,6 +275,15 @@ class _GetterProved(Contract):
         d = S.result
         n = ival(getattr(sig, self.count))
         start = getattr(L, self.start)
+        if isinstance(d, PyDict) and not sig.symbolic:
+            # concrete-structured mode: the dict itself (keys are the names 0..n-1 in scenario order)
+            cnt = getattr(sig, self.count)
+            keys_ok = [getattr(k, "k", k) for k in d.d] == list(range(cnt)) and not d.sym
+            cs = [z3.BoolVal(keys_ok)]
+            if keys_ok:
+                for k, v in enumerate(d.d.values()):
+                    cs.append(rval(v) == z3.Select(S.old["vec"], start + k))
+            return [("dict-of-vector-cells", z3.And(*cs))]
         if not isinstance(d, SDict):
             return [("dict-of-vector-cells", z3.BoolVal(False))]
         j = sig.qvar("gj")
